@@ -72,7 +72,11 @@ func (l *implList) push(s uint64) {
 }
 
 func mm(what string, args ...any) *enum.Mismatch {
-	return &enum.Mismatch{What: fmt.Sprintf(what, args...), Sig: "list|" + strings.SplitN(what, " ", 2)[0]}
+	w := strings.SplitN(what, " ", 2)[0]
+	if i := strings.IndexByte(w, '('); i > 0 {
+		w = w[:i]
+	}
+	return &enum.Mismatch{What: fmt.Sprintf(what, args...), Sig: "list|" + w}
 }
 
 // compare checks every lookup of impl against ref for all probes in [0, maxProbe].
